@@ -1,6 +1,7 @@
 """Fact model: loads the JSON written by engine/gimli-facts and offers CFG / def-use /
 call-graph utilities.  Everything here is purely structural (no execution of gimli)."""
 import json
+import os
 import re
 from collections import defaultdict, deque
 
@@ -323,8 +324,79 @@ def _dominators(n, succ, pred, entry, reach):
 FIXTURE_NAMES = {'Reader': 'read::reader::Reader', 'DebugStrOffset': 'common::DebugStrOffset', 'Error': 'read::Error'}
 
 
+FUNCTIONS_TABLE = os.path.join(os.path.dirname(os.path.dirname(os.path.abspath(__file__))), 'tables', 'functions.json')
+
+
+def fn_signature(fr, strs):
+    """parameter and return types of a raw function record"""
+    return [strs[fr['locals'][i][0]] for i in range(0, fr['argc'] + 1) if i < len(fr['locals'])]
+
+
+def _undo_private_renames(raw):
+    """Rename normalisation.  tables/functions.json lists every function of the pinned tree with its signature.  A function
+    that is missing now, when exactly one function that did not exist then has the same scope (module / impl), the same
+    signature and is not reachable from the public API, is that function under a new name: the facts are rewritten to the
+    reviewed name (definition, its closures, every call of it), so that table rows, anchors and site keys keep matching.
+    Returns {new path: old path}.  Content changes are not hidden: only the name is mapped."""
+    if not os.path.exists(FUNCTIONS_TABLE) or os.environ.get('VERIF_NO_RENAMES'):
+        return {}
+    frozen = json.load(open(FUNCTIONS_TABLE))['functions']
+    strs = raw['strs']
+    cur = {fr['path']: fr for fr in raw['fns'] if fr['kind'] != 'Closure'}
+    missing = [p_ for p_ in frozen if p_ not in cur]
+    added = [p_ for p_ in cur if p_ not in frozen]
+    if not missing or not added:
+        return {}
+    scope = lambda p_: p_.rsplit('::', 1)[0]
+    amap = {}
+    for m in missing:
+        cands = [a for a in added if scope(a) == scope(m) and fn_signature(cur[a], strs) == frozen[m]['sig']
+                 and not cur[a].get('reachable_pub') and cur[a]['kind'] == frozen[m].get('kind', cur[a]['kind'])]
+        if len(cands) == 1:
+            amap.setdefault(cands[0], []).append(m)
+    amap = {a: ms[0] for a, ms in amap.items() if len(ms) == 1}
+    if not amap:
+        return {}
+
+    def fix_path(p_):
+        if not isinstance(p_, str):
+            return p_
+        for a, m in amap.items():
+            if p_ == a:
+                return m
+            if p_.startswith(a + '::'):
+                return m + p_[len(a):]
+        return p_
+    short = {a.rsplit('::', 1)[1]: m.rsplit('::', 1)[1] for a, m in amap.items()}
+    for fr in raw['fns']:
+        np_ = fix_path(fr['path'])
+        if np_ != fr['path']:
+            if fr['path'] in amap:
+                fr['name'] = np_.rsplit('::', 1)[1]
+            fr['path'] = np_
+        if fr.get('parent'):
+            fr['parent'] = fix_path(fr['parent'])
+        for blk in fr['blocks']:
+            stmts, t = blk
+            if t.get('k') in ('call', 'tailcall') and isinstance(t.get('f'), dict) and 'path' in t['f']:
+                f = t['f']
+                if f['path'] in amap or (f.get('res') in amap):
+                    f['name'] = short.get(f.get('name'), f.get('name'))
+                f['path'] = fix_path(f['path'])
+                if f.get('res'):
+                    f['res'] = fix_path(f['res'])
+            for st in stmts:
+                if st[0] == 'a' and st[2][0] == 'agg' and st[2][1][0] == 'closure':
+                    st[2][1][1] = fix_path(st[2][1][1])
+    for im in raw.get('impls', []):
+        for it in im.get('items', []):
+            if 'path' in it:
+                it['path'] = fix_path(it['path'])
+    return amap
+
+
 class Facts:
-    def __init__(self, path, strip_prefix=None):
+    def __init__(self, path, strip_prefix=None, renames=True):
         with open(path) as f:
             text = f.read()
         if strip_prefix:
@@ -335,6 +407,9 @@ class Facts:
                 text = text.replace('"%s::' % short, '"%s::' % full).replace('"%s"' % short, '"%s"' % full)
                 text = text.replace('<%s as ' % short, '<%s as ' % full).replace(' as %s>' % short, ' as %s>' % full)
         raw = json.loads(text)
+        self.renamed = {}
+        if not strip_prefix and renames:
+            self.renamed = _undo_private_renames(raw)
         self.raw = raw
         self.crate = raw['crate']
         self.features = raw['features']
